@@ -233,6 +233,10 @@ class Simple:
         )
 
     def forward_basis(self):
+        if approx_equal(self.start, 0):
+            # the zero vector spans nothing: empty basis (projecting onto it
+            # would divide by zero and never terminate)
+            return np.zeros((0, self.dim))
         worklist = [self.start]
         basis = [self.start]
         while worklist:
